@@ -12,6 +12,9 @@ FAKE_VCS_SH = r"""#!/bin/sh
 D="$FAKEVCS_DIR"
 name=$(basename "$0")
 { printf '%s\0' "$(( $# + 1 ))"; printf '%s\0' "$name"; for a in "$@"; do printf '%s\0' "$a"; done; } >> "$D/log"
+w="-"
+if [ -f "$D/probe_file" ] && grep -qF -- "$(cat "$D/probe_text")" "$(cat "$D/probe_file")" 2>/dev/null; then w="W"; fi
+printf '%s' "$w" >> "$D/wlog"
 n=0
 [ -f "$D/count" ] && n=$(cat "$D/count")
 n=$((n + 1))
@@ -46,6 +49,9 @@ HOOK_SH = r"""#!/bin/sh
 # generated hook: logs a marker with the two environment variables into the fake-vcs log
 D="$FAKEVCS_DIR"
 { printf '%s\0' "4"; printf '%s\0' "HOOK"; printf '%s\0' "$(basename "$0")"; printf '%s\0' "$BUMPVER_OLD_VERSION"; printf '%s\0' "$BUMPVER_NEW_VERSION"; } >> "$D/log"
+w="-"
+if [ -f "$D/probe_file" ] && grep -qF -- "$(cat "$D/probe_text")" "$(cat "$D/probe_file")" 2>/dev/null; then w="W"; fi
+printf '%s' "$w" >> "$D/wlog"
 [ -f "$D/$(basename "$0").fail" ] && exit 7
 exit 0
 """
@@ -134,8 +140,17 @@ class Project:
             i += 1 + n
         return out
 
+    def fake_wlog(self):
+        p = os.path.join(self.fake, "wlog")
+        return open(p).read() if os.path.exists(p) else ""
+
+    def fake_probe(self, rel_file, text):
+        """every later fake-vcs/hook invocation records whether `rel_file` contains `text` at that moment"""
+        self.fake_set("probe_file", self.path(rel_file))
+        self.fake_set("probe_text", text)
+
     def fake_reset_log(self):
-        for n in ("log", "count"):
+        for n in ("log", "count", "wlog"):
             p = os.path.join(self.fake, n)
             if os.path.exists(p):
                 os.unlink(p)
